@@ -165,6 +165,12 @@ def _election(eseed, district=False, big=False, n_units=None):
         pre = synth.with_margin_features(pre)
         if district:
             pre["geographic_unit_type"] = "precinct-district"
+        else:
+            # one reporting unit is the only one of its classification: with fixed effects on the classification a
+            # calibration split can leave that value out of the training rows (whatever the code then does must be
+            # derived from the seed: seeded change C12_H)
+            rep_ids = cur[cur.percent_expected_vote >= 100].geographic_unit_fips.tolist()
+            pre.loc[pre.geographic_unit_fips == rep_ids[len(rep_ids) // 2], "county_classification"] = "exurb"
         _ELECTIONS[key] = (pre, cur)
     return _ELECTIONS[key]
 
